@@ -20,6 +20,9 @@ import (
 	"github.com/scrapli/scrapligo/util"
 
 	"verif/internal/c01"
+	"verif/internal/c08"
+	"verif/internal/c12"
+	"verif/internal/c18"
 	"verif/internal/devsim"
 	"verif/internal/mon"
 	"verif/internal/scen"
@@ -42,6 +45,10 @@ type Desc struct {
 	// Session (kind=session): a C01 session or a scenario replayed under the race detector.
 	C01Session *c01.Session `json:"c01,omitempty"`
 	Scenario   string       `json:"scenario,omitempty"`
+	// Other: a session of another property's generator (c08 | c12d | c12e | c18), regenerated from
+	// OtherSeed; only the race log is judged for these.
+	Other     string `json:"other,omitempty"`
+	OtherSeed int64  `json:"other_seed,omitempty"`
 }
 
 var states = []string{
@@ -161,6 +168,27 @@ func runSession(d Desc) mon.Result {
 			return r
 		}
 		return mon.Result{Verdict: mon.Held, NonTrivial: true, Obs: map[string]int64{"sessions_under_race_detector": 1, "yield_hits": int64(ct.stats().hits)}}
+	}
+	if d.Other != "" {
+		r := rand.New(rand.NewSource(d.OtherSeed))
+		var res mon.Result
+		switch d.Other {
+		case "c08":
+			res = c08.RunSession(c08.GenSession(r, int(d.OtherSeed%64)))
+		case "c12d":
+			res = c12.RunDialogue(c12.GenDialogue(r, false))
+		case "c12e":
+			res = c12.RunEscalation(c12.GenEscalation(r))
+		case "c18":
+			res = c18.Run(c18.GenCase(r))
+		}
+		obs := map[string]int64{"sessions_under_race_detector": 1, "yield_hits": int64(ct.stats().hits), "other_property_sessions:" + d.Other: 1}
+		if res.Verdict == mon.Violated {
+			// the behavioural oracles (some of them timing-judged) belong to their own properties and
+			// are not tuned for random delays under the race detector: counted, not judged here
+			obs["other_property_oracle_complained_under_delays"] = 1
+		}
+		return mon.Result{Verdict: mon.Held, NonTrivial: true, Obs: obs, Tags: []string{"session-kind=" + d.Other}}
 	}
 	sc := scen.ByName(d.Scenario)
 	st := scen.DryRun(sc)
@@ -567,6 +595,15 @@ func gen(tier string, seed int64) []mon.Case {
 	for _, sc := range scen.All() {
 		if tier == "thorough" || sc.Quick {
 			add(Desc{Kind: "session", Driver: sc.Driver, State: "scenario", Scenario: sc.Name})
+		}
+	}
+	no := 4
+	if tier == "thorough" {
+		no = 80
+	}
+	for _, k := range []string{"c08", "c12d", "c12e", "c18"} {
+		for i := 0; i < no; i++ {
+			add(Desc{Kind: "session", Driver: map[string]string{"c08": "netconf", "c12d": "generic", "c12e": "network", "c18": "generic"}[k], State: k + "-session", Other: k, OtherSeed: r.Int63()})
 		}
 	}
 	return cs
